@@ -56,6 +56,10 @@ def main(tier):
         for nm in ["乔装", "魅", "你", "映", "a = '装'; 装", "力量 + 魅", "x装", "[1,2].len() + 你"]:
             for t in [" 检定", " ", "\t#", "\n理由", "", " 你 好"]:
                 cases.append(("", (nm + t).encode("utf-8"), "-"))
+        # CR LF between statements (as LF): the whole program is consumed
+        for prog in ["a = 1\r\na + 1", "5\r\n6", "x = 2d1\r\n\r\ny = x + 1\r\ny", "a = 1 \r\n a + 1", "`{% a = 1\r\na + 2 %}`", "i = 0\r\nwhile i < 2 { i = i + 1 }\r\ni"]:
+            for t in ["", " ", "\r\n", "\r\n#x", " tail"]:
+                cases.append(("", (prog + t).encode("utf-8"), "-"))
         # statement-level tails that START a construct which writes into its own code buffer (computed value, function) and then break off
         STMT_TAILS = ["; &note = ???", ";&c=", "\n&c = )", "; &c = 1 +", "; &c.x = ", "; func f(", "; func f() {", "; func f() { 1 +", "; &c = `a{", "; if 1 {", "; while 1 { &d = "]
         for s in ["hp = 10; hp = hp - 3", "a = 3d6", "x = 1; y = x + 1", "2d6 + 1", "i=0; while i<3 { i=i+1 }; i", "&q = 2; q + 1", "func g(){ 5 }; g()"]:
